@@ -1310,6 +1310,46 @@ def fam_shape_ops(seed):
     return g.finish([out], "shape-ops", "exact")
 
 
+def fam_lstm(seed):
+    """fully quantised UNIDIRECTIONAL_SEQUENCE_LSTM (int8 activations and weights, int16 cell state, no peephole / projection / layer normalisation), batch or
+    time major, 1-3 batches x 1-4 steps, optionally between other operators.  The compiler unrolls it into fully connected / elementwise operators with
+    16-bit table activations, which the executable NPU model does not cover: no output comparison is claimed (klass 'cpu-mix')."""
+    r = rng_for("lstm", seed)
+    g = G(r, "int8")
+    n_batch, n_time = int(r.choice([1, 1, 2, 3])), int(r.choice([1, 2, 3, 4]))
+    n_input, n_cell = int(r.choice([4, 8, 12, 16])), int(r.choice([4, 8, 20, 16]))
+    time_major = bool(r.integers(0, 3) == 0)
+    in_shape = [n_time, n_batch, n_input] if time_major else [n_batch, n_time, n_input]
+    out_shape = [n_time, n_batch, n_cell] if time_major else [n_batch, n_time, n_cell]
+    x = g.input(in_shape, scale=0.05, zp=0)
+    if r.integers(0, 3) == 0:
+        x = g.unary("relu", x)
+    nm = g.name("lstm")
+
+    def wts(tag, shp):
+        return g.const("%s_%s" % (nm, tag), shp, "int8", r.integers(-30, 31, shp), [0.01], [0]).name
+
+    iw = [wts("i2%s" % k_, (n_cell, n_input)) for k_ in "ifco"]
+    rw = [wts("r2%s" % k_, (n_cell, n_cell)) for k_ in "ifco"]
+    bs = [g.const("%s_b%s" % (nm, k_), (n_cell,), "int32", r.integers(-50, 51, (n_cell,)), [0.0005], [0]).name for k_ in "ifco"]
+    hs = g.net.add_t(nm + "_output_state", [n_batch, n_cell], "int8", [0.007], [0])
+    hs.is_variable = True
+    cs = g.net.add_t(nm + "_cell_state", [n_batch, n_cell], "int16", [2.0 ** -11], [0])
+    cs.is_variable = True
+    y = g.net.add_t(nm + "_o", out_shape, "int8", [0.007], [0])
+    inter = [g.net.add_t("%s_intermediate_%d" % (nm, i_), [], "int16", [2.0 ** -12], [0]).name for i_ in range(4)]
+    inter.append(g.net.add_t(nm + "_effective_hidden_scale_intermediate", [], "int8", [2.0 ** -14], [0]).name)
+    ins = [x] + iw + rw + [None, None, None] + bs + [None, None] + [hs.name, cs.name] + [None, None, None, None]
+    g.net.add_o(BO.UNIDIRECTIONAL_SEQUENCE_LSTM, ins, [y.name], "UnidirectionalSequenceLSTMOptions",
+                dict(fused_activation_function=ACT_TANH, cell_clip=0.0, proj_clip=0.0, time_major=time_major), 3)
+    g.net.ops[-1].intermediates = inter
+    g.kinds.append("lstm")
+    out = y.name
+    if r.integers(0, 2):
+        out = g.unary("relu", out)
+    return g.finish([out], "lstm", "cpu-mix", tol=None)
+
+
 def fam_grouped_conv(seed):
     """CONV_2D whose filter depth is a fraction of the IFM depth (grouped convolution: the compiler splits it into one convolution per group and concatenates),
     per-tensor / per-channel scales, with and without bias, between ordinary operators.  Exact class."""
@@ -1374,6 +1414,7 @@ FAMILIES = {
     "shape-ops": fam_shape_ops,
     "approx-tail2": fam_approx_tail2,
     "grouped-conv": fam_grouped_conv,
+    "lstm": fam_lstm,
 }
 
 
